@@ -8,8 +8,8 @@ RULE = ("schedules: for each script configuration the harness derives the instru
         "sync-point gates, then all gates open and the property is judged on the real outcome; non-trivial = the schedule "
         "contains an Abort that began after Run's reset, or a cancellation")
 
-CONFIGS_QUICK = ["run-cb2-inf", "run-plain", "eval-cb", "eval-cbinf"]
-CONFIGS_THOROUGH = ["run-cb2-inf", "run-cb1-fin", "run-plain", "eval-cb", "eval-plain", "eval-cbinf"]
+CONFIGS_QUICK = ["run-cb2-inf", "run-cb1-nopool", "run-plain", "eval-cb", "eval-cbinf"]
+CONFIGS_THOROUGH = ["run-cb2-inf", "run-cb1-nopool", "run-cb1-fin", "run-plain", "eval-cb", "eval-plain", "eval-cbinf"]
 
 def tla_seq(xs):
     return "<<" + ", ".join('"%s"' % x for x in xs) + ">>"
@@ -47,7 +47,7 @@ def run(ctx):
         # 3. forced on the real code
         res = ctx.path("res-%s.ndjson" % name)
         nsched = sum(1 for _ in open(out))
-        budget = 1500 if ctx.quick else 40000
+        budget = 1200 if ctx.quick else 40000
         every = max(1, -(-nsched // budget))
         ctx.vh("abortreplay", name, out, res, every, timeout=3000)
         ctx.cov.setdefault("schedules_exported", {})[name] = nsched
